@@ -55,8 +55,10 @@ Definition mk_oracle (p : list bool) (c : list conn_outcome) : oracle :=
   {| o_popen := fun k => nth k p true; o_conn := fun k => nth k c COk |}.
 Definition oracle_ok : oracle := mk_oracle [] [].
 
-Record conn_st := { c_closed : bool; c_gotclose : bool; c_pending : nat }.
-Definition fresh_conn : conn_st := {| c_closed := false; c_gotclose := false; c_pending := 0 |}.
+(* c_addr = the listener address this connection was made to (Client(addr), remote.py:58) *)
+Record conn_st := { c_closed : bool; c_gotclose : bool; c_pending : nat; c_addr : nat }.
+Definition fresh_conn (a : nat) : conn_st :=
+  {| c_closed := false; c_gotclose := false; c_pending := 0; c_addr := a |}.
 
 (* program counter of a client thread inside the current operation *)
 Inductive pc :=
@@ -88,8 +90,8 @@ Inductive pc :=
 | RJoinW (h : nat)          (* blocked in join of starter h *)
 | RHas                      (* 89  if not hasattr(self, 'conn'): *)
 | RCallRun                  (* 90      self._run() *)
-| RPopen                    (* _run 53  self.proc = Popen(args, env=env) *)
-| RConnect                  (* _run 58  self.conn = Client(addr)  (retry loop 56-65) *)
+| RPopen (a : nat)          (* _run 53  self.proc = Popen(args, env=env)      a = addr of this _run *)
+| RConnect (a : nat)        (* _run 58  self.conn = Client(addr)  (retry loop 56-65) *)
 | RRel                      (* 85  with-exit: release *)
 | RRelExc (e : exn)         (* 85  with-exit while e propagates *)
 | CSend                     (* 98  self.conn.send_bytes(dumps((name, args, kwargs))) *)
@@ -111,8 +113,8 @@ Inductive sstatus :=
 | SNew                      (* Thread object created (81), not started *)
 | S68                       (* 68  try: *)
 | S69                       (* 69      self._run() *)
-| SPopen                    (* _run 53 *)
-| SConnect                  (* _run 58 *)
+| SPopen (a : nat)          (* _run 53 *)
+| SConnect (a : nat)        (* _run 58 *)
 | S71 (e : option exn)      (* 71  finally: self.prepare_thread = None   (e = exception in flight) *)
 | SDone (e : option exn).   (* thread finished (e = exception that killed it) *)
 
@@ -126,18 +128,25 @@ Record shared := {
   connects : nat;             (* ghost: successful Client(addr) calls *)
   failed : nat;               (* ghost: launches abandoned with the timeout exception *)
   epoch : nat;                (* ghost: completed  del self.conn  (sessions closed) *)
-  inflight : nat              (* ghost: launched, not yet connected / abandoned *)
+  inflight : nat;             (* ghost: launched, not yet connected / abandoned *)
+  naddr : nat;                (* arbitrary_address() calls so far (remote.py:38-41): every call a new address *)
+  srv_addrs : list nat        (* listener address given to each launched server, newest first *)
 }.
 
 Definition set_lock v s := {| lock := v; handle := handle s; conn := conn s; launches := launches s;
   popens := popens s; attempts := attempts s; connects := connects s; failed := failed s;
-  epoch := epoch s; inflight := inflight s |}.
+  epoch := epoch s; inflight := inflight s; naddr := naddr s; srv_addrs := srv_addrs s |}.
 Definition set_handle v s := {| lock := lock s; handle := v; conn := conn s; launches := launches s;
   popens := popens s; attempts := attempts s; connects := connects s; failed := failed s;
-  epoch := epoch s; inflight := inflight s |}.
+  epoch := epoch s; inflight := inflight s; naddr := naddr s; srv_addrs := srv_addrs s |}.
 Definition set_conn v s := {| lock := lock s; handle := handle s; conn := v; launches := launches s;
   popens := popens s; attempts := attempts s; connects := connects s; failed := failed s;
-  epoch := epoch s; inflight := inflight s |}.
+  epoch := epoch s; inflight := inflight s; naddr := naddr s; srv_addrs := srv_addrs s |}.
+
+(* addr = arbitrary_address(...) at the top of _run: a new address on every call *)
+Definition alloc_addr s := {| lock := lock s; handle := handle s; conn := conn s; launches := launches s;
+  popens := popens s; attempts := attempts s; connects := connects s; failed := failed s;
+  epoch := epoch s; inflight := inflight s; naddr := S (naddr s); srv_addrs := srv_addrs s |}.
 
 Inductive outcome :=
 | Goto (p : pc)     (* the operation continues at p *)
@@ -146,27 +155,27 @@ Inductive outcome :=
 | Raise (e : exn).  (* the operation ended with an exception in the caller *)
 
 (* Popen (remote.py:53) *)
-Definition do_popen (o : oracle) (s : shared) : shared * bool :=
+Definition do_popen (o : oracle) (a : nat) (s : shared) : shared * bool :=
   if o_popen o (popens s)
   then ({| lock := lock s; handle := handle s; conn := conn s; launches := S (launches s);
            popens := S (popens s); attempts := attempts s; connects := connects s;
-           failed := failed s; epoch := epoch s; inflight := S (inflight s) |}, true)
+           failed := failed s; epoch := epoch s; inflight := S (inflight s); naddr := naddr s; srv_addrs := a :: srv_addrs s |}, true)
   else ({| lock := lock s; handle := handle s; conn := conn s; launches := launches s;
            popens := S (popens s); attempts := attempts s; connects := connects s;
-           failed := failed s; epoch := epoch s; inflight := inflight s |}, false).
+           failed := failed s; epoch := epoch s; inflight := inflight s; naddr := naddr s; srv_addrs := srv_addrs s |}, false).
 
 (* one Client(addr) attempt of the loop remote.py:56-65 *)
-Definition do_connect (o : oracle) (s : shared) : shared * conn_outcome :=
+Definition do_connect (o : oracle) (a : nat) (s : shared) : shared * conn_outcome :=
   match o_conn o (attempts s) with
-  | COk => ({| lock := lock s; handle := handle s; conn := Some fresh_conn; launches := launches s;
+  | COk => ({| lock := lock s; handle := handle s; conn := Some (fresh_conn a); launches := launches s;
                popens := popens s; attempts := S (attempts s); connects := S (connects s);
-               failed := failed s; epoch := epoch s; inflight := pred (inflight s) |}, COk)
+               failed := failed s; epoch := epoch s; inflight := pred (inflight s); naddr := naddr s; srv_addrs := srv_addrs s |}, COk)
   | CRetry => ({| lock := lock s; handle := handle s; conn := conn s; launches := launches s;
                popens := popens s; attempts := S (attempts s); connects := connects s;
-               failed := failed s; epoch := epoch s; inflight := inflight s |}, CRetry)
+               failed := failed s; epoch := epoch s; inflight := inflight s; naddr := naddr s; srv_addrs := srv_addrs s |}, CRetry)
   | CTimeout => ({| lock := lock s; handle := handle s; conn := conn s; launches := launches s;
                popens := popens s; attempts := S (attempts s); connects := connects s;
-               failed := S (failed s); epoch := epoch s; inflight := pred (inflight s) |}, CTimeout)
+               failed := S (failed s); epoch := epoch s; inflight := pred (inflight s); naddr := naddr s; srv_addrs := srv_addrs s |}, CTimeout)
   end.
 
 Definition upd {A} (f : nat -> A) (i : nat) (v : A) : nat -> A :=
@@ -230,11 +239,11 @@ Definition cstep (c : cfg) (o : oracle) (i : nat) (s : shared) (st : nat -> ssta
   | RJoinL h => keep s st n (Goto (if finished st h then RHas else RJoinW h))
   | RJoinW h => if finished st h then keep s st n (Goto RHas) else None
   | RHas => keep s st n (Goto (if is_some (conn s) then RRel else RCallRun))
-  | RCallRun => keep s st n (Goto RPopen)
-  | RPopen => let (s', ok) := do_popen o s in
-              keep s' st n (Goto (if ok then RConnect else RRelExc LaunchErr))
-  | RConnect => let (s', r) := do_connect o s in
-                keep s' st n (Goto (match r with COk => RRel | CRetry => RConnect
+  | RCallRun => keep (alloc_addr s) st n (Goto (RPopen (naddr s)))
+  | RPopen a => let (s', ok) := do_popen o a s in
+              keep s' st n (Goto (if ok then RConnect a else RRelExc LaunchErr))
+  | RConnect a => let (s', r) := do_connect o a s in
+                keep s' st n (Goto (match r with COk => RRel | CRetry => RConnect a
                                                | CTimeout => RRelExc TimeoutErr end))
   | RRel => keep (set_lock None s) st n (Goto CSend)
   | RRelExc e => keep (set_lock None s) st n (Raise e)
@@ -242,7 +251,8 @@ Definition cstep (c : cfg) (o : oracle) (i : nat) (s : shared) (st : nat -> ssta
              | None => keep s st n (Raise AttrErr)
              | Some k => if c_closed k then keep s st n (Raise OSErr)
                          else keep (set_conn (Some {| c_closed := false; c_gotclose := c_gotclose k;
-                                      c_pending := if c_gotclose k then c_pending k else S (c_pending k) |}) s)
+                                      c_pending := if c_gotclose k then c_pending k else S (c_pending k);
+                                      c_addr := c_addr k |}) s)
                                    st n (Goto CRecv)
              end
   | CRecv => match conn s with
@@ -250,7 +260,7 @@ Definition cstep (c : cfg) (o : oracle) (i : nat) (s : shared) (st : nat -> ssta
              | Some k => if c_closed k then keep s st n (Raise OSErr)
                          else match c_pending k with
                               | S m => keep (set_conn (Some {| c_closed := false; c_gotclose := c_gotclose k;
-                                                               c_pending := m |}) s) st n (Goto CIsOk)
+                                                               c_pending := m; c_addr := c_addr k |}) s) st n (Goto CIsOk)
                               | O => keep s st n (Raise (if c_gotclose k then EOFErr else HangErr))
                               end
              end
@@ -266,18 +276,18 @@ Definition cstep (c : cfg) (o : oracle) (i : nat) (s : shared) (st : nat -> ssta
              | Some k => if negb (fix_f2 c) then keep s st n (Raise TypeErr)      (* F2 *)
                          else if c_closed k then keep s st n (Raise OSErr)
                          else keep (set_conn (Some {| c_closed := false; c_gotclose := true;
-                                                      c_pending := c_pending k |}) s) st n (Goto KClose)
+                                                      c_pending := c_pending k; c_addr := c_addr k |}) s) st n (Goto KClose)
              end
   | KClose => match conn s with
               | None => keep s st n (Raise AttrErr)
               | Some k => keep (set_conn (Some {| c_closed := true; c_gotclose := c_gotclose k;
-                                                  c_pending := c_pending k |}) s) st n (Goto KDel)
+                                                  c_pending := c_pending k; c_addr := c_addr k |}) s) st n (Goto KDel)
               end
   | KDel => match conn s with
             | None => keep s st n (Raise AttrErr)
             | Some _ => keep {| lock := lock s; handle := handle s; conn := None; launches := launches s;
                                 popens := popens s; attempts := attempts s; connects := connects s;
-                                failed := failed s; epoch := S (epoch s); inflight := inflight s |}
+                                failed := failed s; epoch := S (epoch s); inflight := inflight s; naddr := naddr s; srv_addrs := srv_addrs s |}
                              st n Done
             end
   end.
@@ -287,10 +297,10 @@ Definition sstep (o : oracle) (s : shared) (status : sstatus) : option (shared *
   match status with
   | SUnborn | SNew | SDone _ => None
   | S68 => Some (s, S69)
-  | S69 => Some (s, SPopen)
-  | SPopen => let (s', ok) := do_popen o s in Some (s', if ok then SConnect else S71 (Some LaunchErr))
-  | SConnect => let (s', r) := do_connect o s in
-                Some (s', match r with COk => S71 None | CRetry => SConnect
+  | S69 => Some (alloc_addr s, SPopen (naddr s))
+  | SPopen a => let (s', ok) := do_popen o a s in Some (s', if ok then SConnect a else S71 (Some LaunchErr))
+  | SConnect a => let (s', r) := do_connect o a s in
+                Some (s', match r with COk => S71 None | CRetry => SConnect a
                                      | CTimeout => S71 (Some TimeoutErr) end)
   | S71 e => Some (set_handle None s, SDone e)
   end.
@@ -353,7 +363,7 @@ Definition run (c : cfg) (o : oracle) (sched : list tid) (s : state) : state :=
 
 Definition init_shared : shared :=
   {| lock := None; handle := None; conn := None; launches := 0; popens := 0; attempts := 0;
-     connects := 0; failed := 0; epoch := 0; inflight := 0 |}.
+     connects := 0; failed := 0; epoch := 0; inflight := 0; naddr := 0; srv_addrs := [] |}.
 
 Definition init_thread (l : list op) : cthread :=
   {| t_script := l; t_pc := first_pc l; t_exns := []; t_answers := 0 |}.
@@ -384,8 +394,8 @@ Definition pc_loc (c : cfg) (p : pc) : N * N * N :=
   | CEntry => (6, 1, 0) | CTry => (4, 1, 0) | CGet => (4, 2, 0) | CExc => (4, 3, 0) | CRun => (4, 4, 0)
   | RAcq => (2, 1, 0) | RAcqW => (2, 1, 1) | RTest => (2, 2, 0) | RJoin => (2, 3, 0)
   | RRead => (2, 2, 0) | RTestL _ => (2, 3, 0) | RJoinL _ => (2, 4, 0) | RJoinW _ => (2, 3 + f3, 2)
-  | RHas => (2, 5 + f3, 0) | RCallRun => (2, 6 + f3, 0) | RPopen => (2, 6 + f3, 3)
-  | RConnect => (2, 6 + f3, 4) | RRel => (2, 1, 0) | RRelExc _ => (2, 1, 0)
+  | RHas => (2, 5 + f3, 0) | RCallRun => (2, 6 + f3, 0) | RPopen _ => (2, 6 + f3, 3)
+  | RConnect _ => (2, 6 + f3, 4) | RRel => (2, 1, 0) | RRelExc _ => (2, 1, 0)
   | CSend => (4, 6, 0) | CRecv => (4, 7, 0) | CIsOk => (4, 9, 0) | CRet => (4, 10, 0)
   | KTry => (5, 3, 0) | KGet => (5, 4, 0) | KExc => (5, 5, 0) | KPass => (5, 6, 0)
   | KSend => (5, 8, 0) | KClose => (5, 9, 0) | KDel => (5, 10, 0)
@@ -394,7 +404,7 @@ Definition pc_loc (c : cfg) (p : pc) : N * N * N :=
 Definition st_loc (x : sstatus) : N * N * N :=
   match x with
   | SUnborn => (0, 0, 7) | SNew => (0, 0, 5) | S68 => (3, 1, 0) | S69 => (3, 2, 0)
-  | SPopen => (3, 2, 3) | SConnect => (3, 2, 4) | S71 _ => (3, 4, 0) | SDone _ => (0, 0, 6)
+  | SPopen _ => (3, 2, 3) | SConnect _ => (3, 2, 4) | S71 _ => (3, 4, 0) | SDone _ => (0, 0, 6)
   end%N.
 
 Definition st_exn (x : sstatus) : N :=
@@ -414,6 +424,17 @@ Definition obs_starter (c : cfg) (o : oracle) (s : state) (h : nat) : list N :=
   let '(f, off, kind) := st_loc x in
   [f; off; kind; b2N (enabled c o s (St h)); st_exn x].
 
+(* listener addresses as the harness sees them: numbered in the order in which they were first
+   given to a launched server (the real ones are random socket paths) *)
+Definition add_new (l : list nat) (x : nat) : list nat :=
+  if existsb (Nat.eqb x) l then l else l ++ [x].
+Definition seen_addrs (g : shared) : list nat := fold_left add_new (rev (srv_addrs g)) [].
+Fixpoint index_of (x : nat) (l : list nat) : nat :=      (* 1-based; 0 = not there *)
+  match l with
+  | [] => 0
+  | y :: r => if Nat.eqb x y then 1 else match index_of x r with 0 => 0 | S k => S (S k) end
+  end.
+
 Definition observe (c : cfg) (o : oracle) (s : state) : list N :=
   let g := sh s in
   [N.of_nat (launches g); N.of_nat (popens g); N.of_nat (attempts g)] ++
@@ -422,6 +443,10 @@ Definition observe (c : cfg) (o : oracle) (s : state) : list N :=
   | Some k => [1%N; b2N (c_closed k); b2N (c_gotclose k); N.of_nat (c_pending k)]
   end ++
   [optN (handle g); optN (lock g); N.of_nat (nstarters s)] ++
+  (* distinct addresses launched on, address of the newest server, address the connection goes to *)
+  [N.of_nat (length (seen_addrs g));
+   match srv_addrs g with [] => 0%N | a :: _ => N.of_nat (index_of a (seen_addrs g)) end;
+   match conn g with None => 0%N | Some k => N.of_nat (index_of (c_addr k) (seen_addrs g)) end] ++
   flat_map (obs_client c o s) (seq 0 (nclients s)) ++
   flat_map (obs_starter c o s) (seq 0 (nstarters s)).
 
